@@ -451,6 +451,7 @@ def run_harness(ck):
 
 
 SVC = {"spans": 0, "attrs": 1, "prof": 2}
+FAIL = {"spans": 0, "attrs": 1, "prof": 2, "spl": 3, "ts": 4}
 
 
 def pcase_to_coq(c):
@@ -553,11 +554,11 @@ def run_pipe(ck):
         txt = ("From Coq Require Import List String Ascii ZArith NArith Bool.\n"
                "From Qryn Require Import model.IngestRobust model.IngestPipe gen.GenGoroutinesWriter.\n"
                "Import ListNotations.\nOpen Scope Z_scope.\n"
-               "Definition cases : list pcase := [\n  " + ";\n  ".join(pcase_to_coq(c) for c in part if c["kind"] != "logs") + "].\n"
-               "Definition lcases : list lcase := [\n  " + ";\n  ".join(lcase_to_coq(c) for c in part if c["kind"] == "logs") + "].\n"
-               "Definition M := Eval vm_compute in (pipe_mismatches gen_on_span_cols gen_spans_fields gen_attrs_fields cases "
-               "++ lpipe_mismatches gen_on_entries_cols gen_spl_fields gen_tsd_fields lcases)%list.\nPrint M.\n"
-               "Definition V := Eval vm_compute in (pipe_spec_violations cases ++ lpipe_spec_violations lcases)%list.\nPrint V.\n")
+               "Definition fcases : list (Z * pcase) := [\n  " + ";\n  ".join("(%d, %s)" % (FAIL.get(c.get("fail_svc", ""), -1), pcase_to_coq(c)) for c in part if c["kind"] != "logs") + "].\n"
+               "Definition flcases : list (Z * lcase) := [\n  " + ";\n  ".join("(%d, %s)" % (FAIL.get(c.get("fail_svc", ""), -1), lcase_to_coq(c)) for c in part if c["kind"] == "logs") + "].\n"
+               "Definition M := Eval vm_compute in (pipe_mismatches_f gen_on_span_cols gen_spans_fields gen_attrs_fields fcases "
+               "++ lpipe_mismatches_f gen_on_entries_cols gen_spl_fields gen_tsd_fields flcases)%list.\nPrint M.\n"
+               "Definition V := Eval vm_compute in (pipe_spec_violations (map snd fcases) ++ lpipe_spec_violations (map snd flcases))%list.\nPrint V.\n")
         rc, out = ck.coq_eval("C05_pipe_%d" % (k // shard), txt)
         flat = " ".join(out.split())
         m = re.search(r"M = \[(.*?)\]\s*: list Z", flat)
@@ -580,12 +581,12 @@ def run_pipe(ck):
     if viol:
         w = min((byid[i] for i in viol), key=size)
         ck.violation({"property": "C05", "kind": "scripted decoder: outcome=%s; a request is not answered / leaves a goroutine / hands a torn batch to an insert service" % w["obs"]["outcome"],
-                      "pipe_case": {k: w[k] for k in ("id", "kind", "class", "events")}, "observed": w["obs"], "others": [i for i in viol if i != w["id"]][:20],
+                      "pipe_case": {k: w[k] for k in ("id", "kind", "class", "events", "fail_svc") if k in w}, "observed": w["obs"], "others": [i for i in viol if i != w["id"]][:20],
                       "replay": "bin/check C05 --replay <this file>   (or: pipefuzz --cases <file with the pipe_case line>)"})
     elif mism:
         w = min((byid[i] for i in mism), key=size)
         ck.violation({"property": "C05", "kind": "scripted decoder: model and implementation disagree on the status class or on the batches pushed",
-                      "pipe_case": {k: w[k] for k in ("id", "kind", "class", "events")}, "observed": w["obs"], "others": [i for i in mism if i != w["id"]][:20],
+                      "pipe_case": {k: w[k] for k in ("id", "kind", "class", "events", "fail_svc") if k in w}, "observed": w["obs"], "others": [i for i in mism if i != w["id"]][:20],
                       "broken": "correspondence IngestPipe.pipe_expected vs parserDoer/doParse", "replay": "bin/check C05 --replay <this file>"})
     hist, outc = {}, {}
     distinct = set()
@@ -603,6 +604,7 @@ def run_pipe(ck):
     ck.extra["pipefuzz_distribution"] = {"classes": dict(sorted(hist.items())), "outcomes": dict(sorted(outc.items())),
                                          "with_flush": sum(1 for c in cases if "/big" in c["class"]),
                                          "short_vals_panic": sum(1 for c in cases if "short-vals" in c["class"]),
+                                         "with_a_failing_insert_service": sum(1 for c in cases if c.get("fail_svc")),
                                          "logs_unequal_lengths": sum(1 for c in cases if "/unequal" in c["class"]),
                                          "logs_torn_batches_observed_(contract_broken_by_the_script)": sum(
                                              1 for c in cases if c["kind"] == "logs" and any(len(set(x.get("cols") or [])) > 1 for x in (c["obs"].get("batches") or []))),
